@@ -18,7 +18,7 @@ func init() {
 		ID: "C15",
 		Explanation: "R1 (ESP, flag-sensitive): from endorse.VirtualFirmware and endorse.RetrySubmit every invoke of a ChangeOps method and of VersionControl.GetChangeOps is reachable only in states where Context.DryRun is known false or the workspace value is known non-nil. " +
 			"R2: every call of keys.FromContext and every invoke of a CertificateAuthority/Signer/VersionControl/ChangeOps method reachable from VirtualFirmware lies in states where MeasurementOnly is known false; GoldenMeasurement's call closure contains none of them. " +
-			"R3: DryRun/MeasurementOnly are never stored to, and their address is taken only in package cmd (flag registration), which justifies treating all loads as one flag. " +
+			"R3: DryRun/MeasurementOnly are never stored to, and their address is taken only in package cmd, where it flows to nothing but the destination argument of pflag's BoolVar/BoolVarP (directly or through helpers of package cmd; never stored or handed to another flag's parser), which justifies treating all loads as one flag. " +
 			"R4: what is printed under measurement-only and what SignDoc signs derive from one GoldenMeasurement call result. " +
 			"R5: the dry_run / measurement_only flags are bound to the DryRun / MeasurementOnly fields of the very Context installed with endorse.NewContext. " +
 			"Not covered: equality of reported values as bytes; side effects inside VersionControl implementations' ReleasePath/Result (pure by interface contract).",
@@ -190,6 +190,13 @@ func runC15(c *Ctx) {
 						if load.RelPkg(f) != "cmd" && !c.isTestFunc(f) {
 							c.S.Bad("R3", load.FuncName(f)+":address "+flow.FieldName(fa), c.pos(fa.Pos()), "address of the flag escapes outside package cmd")
 							stores++
+						} else if !c.isTestFunc(f) {
+							// in package cmd the address goes to the flag library's boolean binding and nowhere else: nothing
+							// keeps the pointer to write the flag from another flag's parser or after parsing
+							if why, pos := onlyBoundAsBoolFlag(fa, ref, 0); why != "" {
+								c.S.Bad("R3", load.FuncName(f)+":address "+flow.FieldName(fa)+" retained", c.pos(pos), "the address of the flag "+why+": something other than the flag library's own boolean binding can write it")
+								stores++
+							}
 						}
 					}
 				}
@@ -285,6 +292,49 @@ func runC15(c *Ctx) {
 		c.S.Floor("R5", "registration of flag "+fl.flagName, 1, sites)
 	}
 	_ = keysPkg
+}
+
+// onlyBoundAsBoolFlag follows a pointer to a flag field forwards from one use: it may be the destination argument of
+// pflag's BoolVar/BoolVarP, or an argument of a function of package cmd whose parameter is used in the same way.
+// It returns why not (empty = fine) and where.
+func onlyBoundAsBoolFlag(p ssa.Value, use ssa.Instruction, depth int) (string, token.Pos) {
+	switch u := use.(type) {
+	case *ssa.UnOp, *ssa.DebugRef:
+		return "", 0
+	case *ssa.Store:
+		if u.Val == p {
+			return "is stored in memory", u.Pos()
+		}
+		return "is written through", u.Pos()
+	case ssa.CallInstruction:
+		cal := u.Common().StaticCallee()
+		if cal == nil {
+			return "is passed to a dynamically dispatched call", u.Pos()
+		}
+		idx := -1
+		for i, a := range u.Common().Args {
+			if a == p {
+				idx = i
+			}
+		}
+		if idx < 0 {
+			return "is used as a call target", u.Pos()
+		}
+		if cal.Pkg != nil && cal.Pkg.Pkg.Path() == "github.com/spf13/pflag" && (cal.Name() == "BoolVar" || cal.Name() == "BoolVarP") && idx == 1 {
+			return "", 0
+		}
+		if load.RelPkg(cal) == "cmd" && depth < 3 && idx < len(cal.Params) && cal.Blocks != nil {
+			par := cal.Params[idx]
+			for _, r := range *par.Referrers() {
+				if why, pos := onlyBoundAsBoolFlag(par, r, depth+1); why != "" {
+					return why + " (through " + cal.Name() + ")", pos
+				}
+			}
+			return "", 0
+		}
+		return "is passed to " + cal.Name(), u.Pos()
+	}
+	return fmt.Sprintf("is used by %T", use), use.Pos()
 }
 
 func callName(call ssa.CallInstruction) string {
